@@ -334,6 +334,9 @@ func (t *TrakBox) SetAACDescriptor(objType byte, samplingFrequency int) error {
 func (t *TrakBox) SetAC3Descriptor(dac3 *Dac3Box) error {
 	stsd := t.Mdia.Minf.Stbl.Stsd
 	nrChannels, _ := dac3.ChannelInfo()
+	if int(dac3.FSCod) >= len(AC3SampleRates) {
+		return fmt.Errorf("reserved AC-3 sample rate code %d", dac3.FSCod)
+	}
 	samplingFrequency := AC3SampleRates[dac3.FSCod]
 
 	ac3 := CreateAudioSampleEntryBox("ac-3",
@@ -347,7 +350,13 @@ func (t *TrakBox) SetAC3Descriptor(dac3 *Dac3Box) error {
 func (t *TrakBox) SetEC3Descriptor(dec3 *Dec3Box) error {
 	stsd := t.Mdia.Minf.Stbl.Stsd
 	nrChannels, _ := dec3.ChannelInfo()
+	if len(dec3.EC3Subs) == 0 {
+		return fmt.Errorf("dec3 box without substreams")
+	}
 	fscod := dec3.EC3Subs[0].FSCod
+	if int(fscod) >= len(AC3SampleRates) {
+		return fmt.Errorf("reserved EC-3 sample rate code %d", fscod)
+	}
 	samplingFrequency := AC3SampleRates[fscod]
 
 	ec3 := CreateAudioSampleEntryBox("ec-3",
